@@ -514,7 +514,10 @@ def r7_plumbing(ctx, m, me) -> None:
     init = me.methods.get("__init__")
     ci = ctx.cfn(f"{EXP}.ModelExport.__init__", subst=False)
     loops = [n for n in ast.walk(ci) if isinstance(n, ast.For)]
-    ok = len(loops) == 1 and u(loops[0].iter) == "self.hugr.links()" and isinstance(loops[0].target, ast.Tuple) and len(loops[0].target.elts) == 2
+    # (the constructor's parameter, filed as self.hugr before the loop and not rebound, is self.hugr)
+    filed = [s_.value.id for s_ in ci.body if isinstance(s_, ast.Assign) and len(s_.targets) == 1 and u(s_.targets[0]) == "self.hugr" and isinstance(s_.value, ast.Name)
+             and s_.value.id in [a.arg for a in ci.args.args] and sum(1 for n in ast.walk(ci) if isinstance(n, ast.Name) and n.id == s_.value.id and isinstance(n.ctx, ast.Store)) == 0]
+    ok = len(loops) == 1 and u(loops[0].iter) in ["self.hugr.links()"] + [f"{p_}.links()" for p_ in filed] and isinstance(loops[0].target, ast.Tuple) and len(loops[0].target.elts) == 2
     if ok:
         a_, b_ = u(loops[0].target.elts[0]), u(loops[0].target.elts[1])
         bps = summaries(loops[0].body)
